@@ -145,6 +145,10 @@ def run(R, tier, seed, driver_ok):
                         warnings.simplefilter('always')
                         ret = est.fit(*args)
                 except Exception as e:
+                    if name.startswith('SDML') and isinstance(e, RuntimeError):
+                        # the documented failure clause of SDML (C13): the graphical-lasso solver could not produce a finite SPD matrix
+                        R.count('SDML-solver-failure (RuntimeError, judged by C13)')
+                        continue
                     R.violation(f'{name}/fit-raises/{type(e).__name__}', f'{name}({desc}).fit raised {type(e).__name__}: {str(e)[:200]}', case)
                     continue
                 warned = any('reduces the dimension' in str(w.message) for w in wl)
